@@ -81,6 +81,8 @@ def instances(tier, seed):
     for tc in ("typeguard", "beartype"):
         for sw in (0, 1):
             out.append(("core", dict(params=["a b", "a"], ret=None, maxrank=mr, switch=sw, tc=tc, tree_first=True)))
+    for tc in ("typeguard", "beartype"):
+        out.append(("core", dict(params=["*#v", "tree"], ret=None, maxrank=mr, switch=0, tc=tc, tree_variadic=True)))
     # misuse -> AnnotationError
     for ps, r in ([["a+1"], None], [["a"], "b+1"], [["?a"], None], [["#a", "a+1"], None], [["a"], "?a"]):
         for tc in ("typeguard", "beartype"):
@@ -256,10 +258,44 @@ def scenario_tree(inst, V):
     return dict(verdict="TCE", blamed=info["blamed"], pytree=sorted(info["pytree"]))
 
 
+def scenario_tree_variadic(inst, V):
+    """f(x: Float[A,'*#v'], t: PyTree[Float[A,'*#v']]): an earlier leaf may widen v before a later
+    leaf fails; the message must list v as it was before the failed tree check."""
+    import jaxtyping as jt
+    A = V.ARR
+    key = ("treevar", A, inst["tc"])
+    if key not in _union_cache:
+        _union_cache[key] = fnlib.build(["*#v", None], None, A, inst["tc"], "function", None,
+                                        anns=[None, jt.PyTree[jt.Float[A, "*#v"]]])
+    fn, pn = _union_cache[key]
+    xs, l0, l1 = [V.int("x0", 0)], [V.int("l0", 0)], [V.int("l1", 0)]
+    kind, res = fnlib.call(fn, pn, [V.arr(xs), [V.arr(l0), V.arr(l1)]], "pos")
+    B = D.step(D.parse_ref("*#v"), [core.lift(x) for x in xs], D.Bindings())["B"]
+    cur, ok = B, True
+    for sh in (l0, l1):
+        st = D.step(D.parse_ref("*#v"), [core.lift(x) for x in sh], cur)
+        if V.decide(st["strict"] == D.ACC):
+            cur = st["B"]
+        else:
+            ok = False
+            break
+    if kind != "TCE":
+        V.check("verdict-class", kind == "OK" and ok, verdict=kind)
+        return dict(verdict=kind)
+    info = parse_message(str(res))
+    V.reach("TCE-params")
+    V.check("stage", info["stage"] == "parameters" and not ok, said=info["stage"])
+    V.check("blame", info["blamed"] == "p1", blamed=info["blamed"])
+    compare.check_bindings(V, "bindings", dict(single=info["single"], variadic=info["variadic"]), B, tree_variadic=True)
+    return dict(verdict="TCE", variadic=info["variadic"])
+
+
 def scenario(inst, V):
     import jaxtyping as jt
     if inst.get("tree_first"):
         return scenario_tree(inst, V)
+    if inst.get("tree_variadic"):
+        return scenario_tree_variadic(inst, V)
     params, ret = inst["params"], inst["ret"]
     k, mr = len(params), inst["maxrank"]
     shapes = []
